@@ -316,7 +316,7 @@ Section Dec.
   Definition fragment (proto: ty) (allow_eoo: bool) : proc dval := rec (STy proto) [] None allow_eoo true.
 
   Definition dec_octets (proto: ty) (fl: dec_flags) (sp: option ty) (ts: tagset) (len: nat) (sfun: bool) : proc dval :=
-    if sfun then collector (Some len) else
+    (* the only substrateFun modelled is the fragment collector, which this decoder ignores *)
     if tag0_simple ts then let! b := readN len in create sp proto ts (VOcts b) else
     if negb (df_constructed fl) then Raise EMalformed else
     let! start := tell in
@@ -409,7 +409,8 @@ Section Dec.
        | S n' =>
            let! f := fragment TAny true in
            match f with
-           | DEoo => Ret (DRaw acc)     (* `if substrateFun: yield chunk` - substrateFun was just assigned, so always *)
+           | DEoo => let whole := acc ++ (if tagged then [] else [0; 0]) in   (* an untagged ANY holds the whole TLV *)
+                     if sfun then Ret (DRaw whole) else create sp TAny ts (VAny whole)
            | DRaw b => loop n' (acc ++ b)
            | DV _ (VAny b) => loop n' (acc ++ b)
            | _ => Raise (ECrash TypeError)
@@ -479,7 +480,7 @@ Section Dec.
                                           | Some _ => Some SNone
                                           | None => Some SNone end)
                        else match len with
-                            | None => if Nat.leb (length fs) idx then Some SNone      (* indefinite: past the last member *)
+                            | None => if negb is_set && Nat.leb (length fs) idx then Some SNone   (* indefinite SEQUENCE: past the last member *)
                                       else if is_set then Some (SMap (fields_tagmap true (map snd fs)))
                                       else seq_component_spec fs deterministic idx
                             | Some _ => if is_set then Some (SMap (fields_tagmap true (map snd fs)))
@@ -585,7 +586,7 @@ Section Dec.
            match n with
            | O => Raise EOutOfFuel
            | S n' =>
-               let! d := (if tagged then rec (SMap m) [] None true false else rec (SMap m) ts (Some None) true false) in
+               let! d := (if tagged then rec (SMap m) [] None true false else rec (SMap m) ts (Some None) false false) in
                match d with
                | DEoo => match cur with Some x => Ret x | None => Ret (DV T (VChoice (length alts) VNull)) end
                | _ => let! x := place d in if tagged then loop n' (Some x) else Ret x
@@ -613,7 +614,7 @@ Section Dec.
     let proto_str := match sp with
                      | Some T => (match base_of T with TStr n => TStr n | _ => TOcts end)
                      | None => match df_proto fl with Some (KStr n) => TStr n | _ => TOcts end end in
-    let fragment_proto := match df_proto fl with Some (KStr n) => TStr n | _ => TOcts end in
+    let fragment_proto := TOcts in      (* protoFragment: segments are OCTET STRINGs *)
     let unsupported_indef := Raise EMalformed in
     let constructed_guard (k: proc dval) := if negb (tag0_cons ts) then Raise EMalformed else k in
     match cd, len with
